@@ -51,3 +51,61 @@ pub proof fn lemma_vtok_collect(elems: Seq<SyntaxElement>, ch: Seq<Tree>, outs: 
         assert(somes(outs) =~= Seq::<String>::empty());
     }
 }
+
+/// structural description of a parse result of BuildProfile::from_str (the same definition as in unit codecs)
+pub open spec fn profile_parse_is(t: Seq<char>, v: dc_relations::BuildProfile) -> bool {
+    if t.len() > 0 && t[0] == '!' { v is Disabled && v->Disabled_0@ == t.skip(1) }
+    else { v is Enabled && v->Enabled_0@ == t }
+}
+impl VxFromStr for dc_relations::BuildProfile {
+    type VxErr = String;
+    open spec fn parse_rel(s: Seq<char>, v: dc_relations::BuildProfile) -> bool { profile_parse_is(s, v) }
+    open spec fn parse_err(s: Seq<char>) -> bool { false }
+    fn vx_from_str(s: &str) -> (r: Result<dc_relations::BuildProfile, String>) { dc_relations::BuildProfile::from_str(s) }
+}
+// ---- Relation::profiles against the tree -----------------------------------------------------------------------------
+pub type ProfV = (bool, Seq<char>);   // (negated, name)
+pub open spec fn prof_view(p: dc_relations::BuildProfile) -> ProfV {
+    match p { dc_relations::BuildProfile::Enabled(s) => (false, s@), dc_relations::BuildProfile::Disabled(s) => (true, s@) }
+}
+pub open spec fn group_view(g: Seq<dc_relations::BuildProfile>) -> Seq<ProfV> { g.map_values(|p: dc_relations::BuildProfile| prof_view(p)) }
+pub open spec fn groups_view(gs: Seq<Vec<dc_relations::BuildProfile>>) -> Seq<Seq<ProfV>> { gs.map_values(|g: Vec<dc_relations::BuildProfile>| group_view(g@)) }
+/// a profile text: "!name" is the negated profile name
+pub open spec fn profv_of(t: Seq<char>) -> ProfV { if t.len() > 0 && t[0] == '!' { (true, t.skip(1)) } else { (false, t) } }
+pub open spec fn cat(l: Seq<Seq<char>>) -> Seq<char> { join_seqs(l, Seq::<char>::empty()) }
+/// the loop of the accessor as a function: children from the front; white space ends a profile, angle brackets are
+/// skipped, every other child's text belongs to the current profile
+pub open spec fn prof_fold(ch: Seq<Tree>, ret: Seq<ProfV>, cur: Seq<Seq<char>>) -> (Seq<ProfV>, Seq<Seq<char>>)
+    decreases ch.len()
+{
+    if ch.len() == 0 { (ret, cur) } else {
+        let k = rowan::tree_kind(ch[0]);
+        if k == WHITESPACE || k == NEWLINE {
+            if cur.len() > 0 { prof_fold(ch.skip(1), ret.push(profv_of(cat(cur))), Seq::empty()) } else { prof_fold(ch.skip(1), ret, cur) }
+        } else if k == L_ANGLE || k == R_ANGLE { prof_fold(ch.skip(1), ret, cur) }
+        else { prof_fold(ch.skip(1), ret, cur.push(rowan::tree_text(ch[0]))) }
+    }
+}
+/// one `<...>` group: the profiles between the angle brackets, separated by white space
+pub open spec fn t_profile_group(pn: Tree) -> Seq<ProfV> {
+    let (ret, cur) = prof_fold(rowan::tree_children(pn), Seq::empty(), Seq::empty());
+    if cur.len() > 0 { ret.push(profv_of(cat(cur))) } else { ret }
+}
+/// the restriction formula: one group per PROFILES child, in order
+pub open spec fn t_profiles(rel: Tree) -> Seq<Seq<ProfV>> {
+    kind_filter(rowan::child_nodes(rowan::tree_children(rel)), PROFILES).map_values(|pn: Tree| t_profile_group(pn))
+}
+pub proof fn lemma_keep_kind(hs: Seq<SyntaxNode>, ts: Seq<Tree>, keep: Seq<bool>, k: SyntaxKind)
+    requires
+        hs.len() == ts.len(), keep.len() == ts.len(),
+        forall|i: int| 0 <= i < ts.len() ==> (#[trigger] hs[i]).tree() == ts[i],
+        forall|i: int| 0 <= i < ts.len() ==> #[trigger] keep[i] == (rowan::tree_kind(ts[i]) == k),
+    ensures
+        keep_where(hs, keep).len() == kind_filter(ts, k).len(),
+        forall|i: int| 0 <= i < kind_filter(ts, k).len() ==> (#[trigger] keep_where(hs, keep)[i]).tree() == kind_filter(ts, k)[i],
+    decreases ts.len()
+{
+    if ts.len() > 0 {
+        lemma_keep_kind(hs.drop_last(), ts.drop_last(), keep.drop_last(), k);
+    }
+}
